@@ -57,6 +57,7 @@ def run_case(case):
     pattern = C.row_pattern(view)
     cls = spec["method"]["cls"]
     N, M = spec["method"]["N"], spec["method"]["M"]
+    extra_seen = {}
     for it in range(case["K"]):
         w = view.random_point(rng)   # generic points only: at the (structured) start point atoms coincide
         ph = rb(w)
@@ -83,11 +84,14 @@ def run_case(case):
                                   it, len(un_e), len(exp), C.short([exp[i][1] for i in un_e][:6]),
                                   C.short([sys_eq[i][1] for i in un_o][:6]))})
                 break
-            extra = [sys_eq[i][2] for i in un_o if pattern[sys_eq[i][2]] & xcols]
-            if extra:
+            # (seen at two points: guards against near-collisions inside the matching tolerance)
+            for r_ in [sys_eq[i][2] for i in un_o if pattern[sys_eq[i][2]] & xcols]:
+                extra_seen[r_] = extra_seen.get(r_, 0) + 1
+            rep = sorted(r_ for r_, n_ in extra_seen.items() if n_ >= 2)
+            if rep:
                 res["violations"].append({
                     "kind": "extra-dynamic-row", "mech": "C01|extra-dynamic-row",
-                    "detail": "system equality rows %s involve node states but are not gap-closing rows" % extra[:5]})
+                    "detail": "system equality rows %s involve node states but are not gap-closing rows" % rep[:5]})
                 break
         else:
             Xref = ref.ss_states()
